@@ -48,7 +48,7 @@ def _run(module, cfg=None, env=None, workers=16, timeout=3600, simulate=None, de
     workers = int(os.environ.get('VERIF_TLC_WORKERS', workers))
     meta = tempfile.mkdtemp(prefix='vtlc-')
     cfg = cfg or (module + '.cfg')
-    cmd = ['java', '-XX:+UseParallelGC']
+    cmd = ['java', '-XX:+UseParallelGC', '-XX:ParallelGCThreads=%d' % max(1, min(8, workers))]      # GC threads follow the worker count (the default is one per core, per JVM)
     cmd.append('-Xmx%s' % (heap or os.environ.get('VERIF_TLC_HEAP', '6g')))
     cmd += ['-Djava.io.tmpdir=' + meta, '-cp', JAVA_CP, 'tlc2.TLC', '-workers', str(workers), '-metadir', meta,
             '-noGenerateSpecTE', '-config', cfg]
